@@ -159,35 +159,50 @@ def finding_matches(k, pid, f):
     if k.get('property') != pid: return False
     if k.get('view') and k['view'] != f['module'].split('::')[-1]: return False
     if k.get('obligation') and k['obligation'] not in ('%s:%s' % (f['fn'], f['label'])): return False
-    return True
+    return not k.get('witness')     # findings with a witness file are input-level (probe) findings, not obligation-level
 
 # ------------------------------------------------------------------ probe (bounded search / replay on the real crate)
+_PROBE = {}
 def probe_build():
     """build /verif/probe against REPO's working tree; returns path of the binary or None"""
+    if 'bin' in _PROBE: return _PROBE['bin'], _PROBE.get('msg', '')
     pdir = os.path.join(ROOT, 'probe')
-    if not os.path.exists(os.path.join(pdir, 'Cargo.toml')): return None, 'no probe crate'
     tdir = os.environ.get('VERIF_PROBE_TARGET', os.path.join(ROOT, 'gen', 'probe-target'))
-    env = dict(os.environ, CARGO_NET_OFFLINE='true', CARGO_TARGET_DIR=tdir, VERIF_REPO=REPO)
-    # the path dependency is rewritten to the repository under test
+    env = dict(os.environ, CARGO_NET_OFFLINE='true', CARGO_TARGET_DIR=tdir)
     cargo = open(os.path.join(pdir, 'Cargo.toml.in')).read().replace('@REPO@', REPO)
-    open(os.path.join(pdir, 'Cargo.toml'), 'w').write(cargo)
-    rc, out, err, wall = sh('cargo build --release --offline -q', timeout=900, env=env, cwd=pdir)
-    if rc != 0: return None, err[-2000:]
-    return os.path.join(tdir, 'release', 'probe'), ''
+    cpath = os.path.join(pdir, 'Cargo.toml')
+    if not os.path.exists(cpath) or open(cpath).read() != cargo:
+        open(cpath, 'w').write(cargo)
+    rc, out, err, wall = sh('cargo build --release --offline -q', timeout=1200, env=env, cwd=pdir)
+    _PROBE['bin'] = os.path.join(tdir, 'release', 'probe') if rc == 0 else None
+    _PROBE['msg'] = '' if rc == 0 else err[-3000:]
+    _PROBE['build_s'] = wall
+    return _PROBE['bin'], _PROBE['msg']
 
-def probe_search(pid, seed, tier, views=None):
+def probe_search(pid, seed, budget, views=None, skip=None):
     binp, msg = probe_build()
-    if not binp: return dict(available=False, note=msg)
-    budget = '200000' if tier == 'thorough' else '20000'
-    cmd = [binp, 'search', pid, '--seed', str(seed), '--budget', budget]
+    if not binp: return dict(available=False, note='probe does not build against this tree: ' + msg[-600:])
+    cmd = [binp, 'search', pid, '--seed', str(seed), '--budget', str(budget)]
     if views: cmd += ['--views', ','.join(views)]
+    if skip: cmd += ['--skip', ','.join(skip)]
     rc, out, err, wall = sh(cmd, timeout=1500)
-    res = dict(available=True, wall=wall, rc=rc, cmd=' '.join(cmd))
+    res = dict(available=True, wall_s=round(wall, 2), rc=rc, cmd=' '.join(cmd).replace(binp, 'probe'), bound='window lengths 1..7, streams of at most 3N+8 small dyadic values, %d cases' % budget)
     try:
         res.update(json.loads(out.strip().split('\n')[-1]))
     except Exception:
         res['note'] = (out + err)[-1000:]
     return res
+
+def probe_replay(path, no_skip=True):
+    binp, msg = probe_build()
+    if not binp: return None, 'probe does not build: ' + msg[-300:]
+    env = dict(os.environ)
+    if no_skip: env['PROBE_NO_SKIP'] = '1'
+    rc, out, err, wall = sh([binp, 'replay', path], timeout=600, env=env)
+    return rc, out.strip().split('\n')[-1] if out.strip() else err[-300:]
+
+def is_rlimit(e):
+    return 'rlimit' in e['msg'].lower() or 'resource limit' in e['msg'].lower()
 
 # ------------------------------------------------------------------ main
 def main():
@@ -197,6 +212,12 @@ def main():
     tier = os.environ.get('VERIF_TIER', 'quick')
     if '--tier' in args: tier = args[args.index('--tier') + 1]
     seed = int(os.environ.get('VERIF_SEED', '0') or 0)
+    if '--replay' in args:
+        path = args[args.index('--replay') + 1]
+        rc, line = probe_replay(path)
+        print(line)
+        if rc == 1: print('VIOLATION property=%s replay=%s' % (pid, path)); sys.exit(1)
+        sys.exit(0 if rc == 0 else 2)
     t0 = time.time()
     gdir = os.path.join(ROOT, 'gen', pid)
     os.makedirs(gdir, exist_ok=True)
@@ -210,7 +231,6 @@ def main():
         print('MACHINERY: extraction failed (not a verdict): %s' % e); sys.exit(2)
     gen_lines = open(gen).read().split('\n')
     lmap = rep['line_map']
-    # modules this property depends on (claims.py) plus its property-level lemma modules
     import claims
     if pid not in claims.CLAIMS:
         print('MACHINERY: %s is not claimed (see MANIFEST.not_applicable)' % pid); sys.exit(2)
@@ -225,89 +245,95 @@ def main():
         print('MACHINERY: buffer fields without a declared C18 bound: %s (needs contract work, not a verdict)' % rep['unbounded_buffers']); sys.exit(2)
     # ---- canaries: the trusted base must not prove false
     can = run_verus(gen, ['canary'], rlimit=10, timeout=300)
-    can_errs = parse_stderr(can['stderr'])
     n_canaries = len(re.findall(r'proof fn canary_', '\n'.join(gen_lines)))
     if can['json'] is None or can['json']['verification-results']['errors'] != n_canaries or n_canaries == 0:
         print('MACHINERY: canary check inconclusive (%s of %d canaries failed as they must) - trusted base suspect' % (can['json'] and can['json']['verification-results']['errors'], n_canaries))
         print(can['stderr'][-1500:]); sys.exit(2)
-    # ---- the run
-    rl = 30 if tier == 'quick' else 60
+    # ---- the deductive run
+    rl = 40 if tier == 'quick' else 80
     res = run_verus(gen, mods + pmods, rlimit=rl, timeout=1500)
     if res['json'] is None:
         print('MACHINERY: verus produced no result (rc=%s)\n%s' % (res['rc'], res['stderr'][-3000:])); sys.exit(2)
-    if res['json']['verification-results'].get('encountered-vir-error') or (res['json']['verification-results']['errors'] == 0 and res['json']['verification-results']['verified'] == 0):
-        print('MACHINERY: verus rejected the generated text (unsupported construct?)\n%s' % res['stderr'][-3000:]); sys.exit(2)
+    vr = res['json']['verification-results']
+    if vr.get('encountered-vir-error') or (vr['errors'] == 0 and vr['verified'] == 0):
+        print('MACHINERY: verus rejected the generated text (unsupported construct or contract text out of date)\n%s' % res['stderr'][-3000:]); sys.exit(2)
     errs = parse_stderr(res['stderr'])
-    if any('rlimit' in e['msg'].lower() or 'resource limit' in e['msg'].lower() for e in errs):
-        res2 = run_verus(gen, mods + pmods, rlimit=rl * 4, timeout=3000)
-        errs2 = parse_stderr(res2['stderr'])
-        if any('rlimit' in e['msg'].lower() or 'resource limit' in e['msg'].lower() for e in errs2):
-            print('MACHINERY: solver resource limit exceeded (undecided, not a verdict)\n' + '\n'.join(e['msg'] for e in errs2)); sys.exit(2)
-        res, errs = res2, errs2
-    fails = [attribute(e, rep, gen_lines) for e in errs]
+    if any(is_rlimit(e) for e in errs):                       # resource-outs: retry once with a much larger limit
+        res2 = run_verus(gen, mods + pmods, rlimit=rl * 8, timeout=3000)
+        if res2['json'] is not None:
+            res, errs = res2, parse_stderr(res2['stderr'])
+    undecided = [attribute(e, rep, gen_lines) for e in errs if is_rlimit(e)]
+    fails = [attribute(e, rep, gen_lines) for e in errs if not is_rlimit(e)]
     for f in fails:
         if f['kind'] == 'lemma' and f['module'].startswith('props::'):
             f['tags'] = [f['module'].split('::')[1][:3].upper()]
     if any(f['kind'] == 'lemma' and not f['module'].startswith('props') for f in fails):
-        print('MACHINERY: a library lemma failed (not a verdict):', [f for f in fails if f['kind'] == 'lemma']); sys.exit(2)
+        print('MACHINERY: a library lemma failed (not a verdict):', [(f['module'], f['fn']) for f in fails if f['kind'] == 'lemma']); sys.exit(2)
     deciding = [f for f in fails if pid in f['tags']]
     prereq = [f for f in fails if pid not in f['tags'] and f['kind'] != 'trait']
-    trait_only = [f for f in fails if f['kind'] == 'trait']
-    # a trait-level failure without any labelled failure in the same function: attribute conservatively to the function's tags
-    for t in trait_only:
+    for t in [f for f in fails if f['kind'] == 'trait']:
+        # trait-level failure with no labelled failure in the same function: attribute conservatively to the function's tags
         if not any(f['module'] == t['module'] and f['fn'].split('/')[0] == t['fn'] for f in fails if f['kind'] != 'trait'):
             tags = sorted(set(tg for o in lmap.values() if o['module'] == t['module'] and o['fn'].split('/')[0] == t['fn'] for tg in o['tags']))
             t['tags'] = tags; t['label'] = 'trait-contract(unattributed)'
             (deciding if pid in tags else prereq).append(t)
-    known = load_known()
+    known = [k for k in load_known() if k.get('property') == pid]
     known_hits, new = [], []
     for f in deciding:
         ks = [k for k in known if finding_matches(k, pid, f)]
         (known_hits if ks else new).append((f, ks))
-    # confirm: re-run failing modules once with another seed and a larger rlimit before believing a failure
+    # confirm a failure once with another solver seed and a larger limit before believing it
     if new:
         fmods = sorted(set(('views::' + f['module']) if not f['module'].startswith('props') else f['module'] for f, _ in new))
-        res3 = run_verus(gen, fmods, rlimit=rl * 3, timeout=1500, extra='--smt-option random_seed=%d' % (seed + 7))
+        res3 = run_verus(gen, fmods, rlimit=rl * 4, timeout=1500, extra='--smt-option random_seed=%d' % (seed + 7))
         errs3 = parse_stderr(res3['stderr'])
-        if any('rlimit' in e['msg'].lower() or 'resource limit' in e['msg'].lower() for e in errs3):
-            print('MACHINERY: solver resource limit exceeded on confirmation run (undecided)'); sys.exit(2)
         fails3 = [attribute(e, rep, gen_lines) for e in errs3]
-        keys3 = set((f['module'], f['fn'], f['label']) for f in fails3)
-        unstable = [f for f, _ in new if (f['module'], f['fn'], f['label']) not in keys3]
-        if unstable:
+        keys3 = set((f['module'], f['fn'].split('/')[0]) for f in fails3)
+        unstable = [f for f, _ in new if (f['module'], f['fn'].split('/')[0]) not in keys3]
+        if unstable and len(unstable) == len(new):
             print('MACHINERY: unstable proof (failed once, passed on re-run): %s' % [(f['module'], f['fn'], f['label']) for f in unstable]); sys.exit(2)
-    # obligations of this property
+        new = [(f, k) for f, k in new if f not in unstable]
+    # ---- obligations of this property
     obl = [o for o in lmap.values() if pid in o['tags']]
     fnres = fn_results(res['json'])
     lemma_fns = [k for k, v in fnres.items() if '::props::' in k]
     n_obl = len(obl) + len(lemma_fns)
     if pid == 'C15':
         n_obl += len([k for k in fnres if '::views::' in k])
-    n_failed = len(set((f['module'], f['fn'], f['label']) for f in deciding))
+    failed_keys = set((f['module'], f['fn'], f['label']) for f in deciding)
+    n_failed = len(failed_keys)
     if n_obl == 0:
         print('MACHINERY: zero obligations for %s' % pid); sys.exit(2)
-    # bounded fallback / counterexample search on the real crate
-    probe = None
-    violation = None
-    if new:
-        probe = probe_search(pid, seed, tier, sorted(set(f['module'] for f, _ in new)))
-        violation = dict(kind='obligation', failed=[f for f, _ in new])
-    elif prereq or tier == 'thorough' or known_hits:
-        probe = probe_search(pid, seed, tier)
-        if probe.get('found'):
-            # a failing input that is one of the listed findings is not new
-            kf = [k for k in known if k.get('property') == pid and k.get('witness') and k['witness'] == probe.get('witness_id')]
-            if not kf:
-                violation = dict(kind='bounded-search', failed=[])
+    # ---- known input-level findings: replay their witnesses on the real crate
+    skip = sorted(set(k['skip'] for k in known if k.get('skip')))
+    for k in known:
+        if k.get('witness'):
+            rc, line = probe_replay(os.path.join(ROOT, k['witness']))
+            if rc == 1:
+                print('KNOWN-FINDING: property=%s view=%s %s [%s]' % (pid, k.get('view'), k.get('what', ''), line[:160]))
+            else:
+                print('NOTE: listed finding no longer reproduces (property=%s view=%s): %s' % (pid, k.get('view'), line[:160]))
     for f, ks in known_hits:
         print('KNOWN-FINDING: property=%s view=%s obligation=%s:%s  %s' % (pid, f['module'], f['fn'], f['label'], ks[0].get('what', '')))
+    # ---- bounded search on the real crate: counterexample finder for failed obligations, stand-in where the proof is unavailable
+    budget = 4000 if tier == 'quick' else 400000
+    focus = sorted(set(f['module'] for f, _ in new)) or None
+    probe = probe_search(pid, seed, budget, None, skip)
+    if focus and not probe.get('found'):
+        p2 = probe_search(pid, seed + 1, budget * 5, focus, skip)
+        if p2.get('found'): probe = p2
+    violation = None
+    if new:
+        violation = dict(kind='failed-obligation', failed=[f for f, _ in new])
+    elif probe.get('found'):
+        violation = dict(kind='failing-input-found-by-bounded-search', failed=[])
     wall = time.time() - t0
     ev = dict(property_id=pid, tier=tier, seed=seed, level='proof', wall_s=round(wall, 2), violations=1 if violation else 0,
               coverage=dict(
                   obligations=n_obl, discharged=n_obl - n_failed,
                   checker_cmd=res['cmd'].replace(gen, 'gen/%s/all.rs' % pid),
                   trusted_base=trusted_base(gen_lines),
-                  backend='Verus 0.2026.09.13 / Z3 (bundled)', solver_ms=sum(v['ms'] for v in fnres.values()),
+                  backend='Verus 0.2026.09.13 / Z3 (bundled with Verus)', solver_ms=sum(v['ms'] for v in fnres.values()),
                   functions_under_contract=sorted(set('%s::%s' % (o['module'], o['fn'].split('/')[0]) for o in obl)),
                   views_not_under_contract=rep['uncontracted'],
                   functions_verified=len([v for v in fnres.values() if v['ok']]), functions_failed=[k for k, v in fnres.items() if not v['ok']],
@@ -316,7 +342,8 @@ def main():
                   extraction_rules_applied=rep['rules_applied'],
                   canaries=dict(expected_to_fail=n_canaries, failed=can['json']['verification-results']['errors']),
                   prerequisite_failures=[dict(module=f['module'], fn=f['fn'], label=f['label'], tags=f['tags']) for f in prereq],
-                  known_findings=[dict(module=f['module'], fn=f['fn'], label=f['label']) for f, _ in known_hits],
+                  undecided_resource_out=[dict(module=f['module'], fn=f['fn']) for f in undecided],
+                  known_findings=[k['raw'][:300] for k in known],
                   bounded=probe,
                   samples=[dict(obligation='%s::%s [%s]' % (o['module'], o['fn'], o['label']), clause=o['text'][:300]) for o in obl[:6]]
                           + [dict(lemma=k) for k in lemma_fns[:4]]),
@@ -324,17 +351,21 @@ def main():
     json.dump(ev, open(os.path.join(ROOT, 'evidence', pid + '.json'), 'w'), indent=1)
     if violation:
         rp = os.path.join(ROOT, 'replay', '%s-%d.json' % (pid, int(time.time())))
-        json.dump(dict(property=pid, violation=violation, verus_output=res['stderr'][-20000:], probe=probe,
-                       failed_obligations=[dict(module=f['module'], fn=f['fn'], label=f['label'], line=f['line'], msg=f['msg'], clause=f.get('text')) for f in violation['failed']]),
+        found = probe.get('found')
+        json.dump(dict(property=pid, violation=violation['kind'], case=probe.get('case') if found else None,
+                       failed_obligations=[dict(module=f['module'], fn=f['fn'], label=f['label'], line=f['line'], msg=f['msg'], clause=f.get('text')) for f in violation['failed']],
+                       verus_output=res['stderr'][-20000:], probe=probe),
                   open(rp, 'w'), indent=1)
         for f in violation['failed']:
             print('FAILED-OBLIGATION: %s::%s [%s] %s :: %s' % (f['module'], f['fn'], f['label'], f['msg'], (f.get('text') or '')[:160]))
-        found = probe and probe.get('found')
-        if found: print('FAILING-INPUT: %s' % json.dumps(probe.get('case')))
+        if found: print('FAILING-INPUT: %s' % json.dumps(probe.get('case'))[:600])
         print('VIOLATION property=%s replay=%s%s' % (pid, rp, '' if found else ' no-failing-input-found'))
         sys.exit(1)
-    print('OK property=%s obligations=%d discharged=%d functions=%d wall=%.1fs%s' % (pid, n_obl, n_obl - n_failed, len(fnres), wall,
-          (' (proof unavailable for %d prerequisite obligation(s); bounded search found nothing)' % len(prereq)) if prereq else ''))
+    if undecided and not prereq:
+        print('MACHINERY: solver resource limit exceeded in %s and the bounded search found no failing input (undecided, not a verdict)' % sorted(set((f['module'], f['fn']) for f in undecided)))
+        sys.exit(2)
+    print('OK property=%s obligations=%d discharged=%d functions=%d bounded-search-cases=%s wall=%.1fs%s' % (pid, n_obl, n_obl - n_failed, len(fnres), probe.get('checked'), wall,
+          (' (proof unavailable for %d prerequisite obligation(s) of other properties; bounded search found nothing)' % len(prereq)) if prereq else ''))
     sys.exit(0)
 
 ASSUMPTIONS = [
